@@ -780,6 +780,11 @@ func (g *Gen) Next() Op {
 		if g.P.Index {
 			op.Val = g.ixEvent()
 		}
+		if g.P.Name == "guardacts" && g.R.Intn(5) == 0 {
+			// the event a cron tick delivers, sent by a client: the rule is fetched by id, behind
+			// the same gates as every other read of the location
+			op.Val = map[string]interface{}{"trigger!": g.pick(g.P.Ids)}
+		}
 		delete(op.Val, "ttl")
 		delete(op.Val, "expires")
 	case "SetReadOnly":
